@@ -98,7 +98,7 @@ theorem mem_ptrTables {p : Ptr} {t : TName} :
   split <;> simp_all
 
 theorem mem_lpropCols {p : Ptr} {c : CName} :
-    c ∈ p.lpropCols ↔ ∃ lp ∈ p.lprops, lp.computed = false ∧ c = .col lp.id := by
+    c ∈ p.lpropCols ↔ ∃ lp ∈ p.lprops, lp.computed = false ∧ c = lp.col := by
   simp only [Ptr.lpropCols, List.mem_map, List.mem_filter, Bool.not_eq_eq_eq_not, Bool.not_true]
   constructor
   · rintro ⟨lp, ⟨h1, h2⟩, rfl⟩; exact ⟨lp, h1, h2, rfl⟩
@@ -130,6 +130,19 @@ theorem mem_ptrCols {p : Ptr} {x : TName × CName} :
       · exact Or.inl ⟨rfl, rfl⟩
       · exact Or.inr (Or.inl ⟨rfl, rfl⟩)
       · exact Or.inr (Or.inr ⟨x2, h, rfl, rfl⟩)
+
+theorem col_of_plain {lp : LProp} (h : lp.implicitName = false) : lp.col = .col lp.id := by
+  unfold LProp.implicitName at h
+  unfold LProp.col
+  cases hn : lp.name <;> simp_all
+
+/-- link property columns when no link property is named `source` / `target` -/
+theorem mem_lpropCols_plain {p : Ptr} (hpl : ∀ lp ∈ p.lprops, lp.implicitName = false) {c : CName} :
+    c ∈ p.lpropCols ↔ ∃ lp ∈ p.lprops, lp.computed = false ∧ c = .col lp.id := by
+  rw [mem_lpropCols]
+  constructor
+  · rintro ⟨lp, h1, h2, h3⟩; exact ⟨lp, h1, h2, by rw [h3, col_of_plain (hpl lp h1)]⟩
+  · rintro ⟨lp, h1, h2, h3⟩; exact ⟨lp, h1, h2, by rw [h3, col_of_plain (hpl lp h1)]⟩
 
 /-- the source column, spelled out -/
 theorem srcCol_eq_some {p : Ptr} {x : TName × CName} :
